@@ -8,6 +8,7 @@ import CoCoVerif.Model.Cassette
 import CoCoVerif.Spec.Tape
 import CoCoVerif.Model.Disk
 import CoCoVerif.Spec.DiskBasic
+import CoCoVerif.Model.Program
 
 open Lean CoCo
 
@@ -92,8 +93,55 @@ def dfileToJson (f : Spec.DiskBasic.DFile) : Json :=
   Json.mkObj [("name", natsJson f.name), ("ext", natsJson f.ext), ("ftype", f.ftype), ("dtype", f.ascii),
     ("load", f.load), ("exec", f.exec), ("data", toHex f.data)]
 
+open CoCo.Asm in
+partial def renderValue : Asm.Value → String
+  | .none => "NONE"
+  | .pyNone => "PYNONE"
+  | .numeric i h m n => s!"NUMERIC int={i} hint={match h with | some x => toString x | none => "None"} mode={m.name} neg={n} hex={String.ofList (numHex i h n)} hexlen={numHexLen i h}"
+  | .symbol nm m => s!"SYMBOL name={String.ofList nm} mode={m.name}"
+  | .address i m => s!"ADDRESS idx={i} mode={m.name}"
+  | .expr l r op m a => s!"EXPRESSION op={op} mode={m.name} addr={a} L[{renderValue l}] R[{renderValue r}]"
+  | .leftRight l r m => s!"LEFT_RIGHT l={String.ofList l} r={String.ofList r} mode={m.name}"
+  | .str s => s!"STRING {String.ofList s}"
+  | .multiByte hs => s!"MULTI_BYTE {String.ofList hs.flatten}"
+  | .multiWord hs => s!"MULTI_WORD {String.ofList hs.flatten}"
+
+def optStr (o : Option (List Char)) : Json := match o with | some s => Json.str (String.ofList s) | none => Json.null
+def optHexBytes (o : Option (List Nat)) : Json := match o with | some b => Json.str (toHex b) | none => Json.null
+
+open CoCo.Asm in
+def stmtJson (s : Asm.Stmt) : Json :=
+  let hexcol : Option (List Char) := do
+    let a ← s.pkg.opCode.hex?
+    let b ← s.pkg.postByte.hex?
+    let c ← s.pkg.additional.hex?
+    pure (a ++ b ++ c)
+  Json.mkObj [("addr", optStr (s.pkg.address.hex? 4)), ("hex", optStr hexcol), ("size", s.pkg.size),
+    ("bytes", optHexBytes (stmtBytes s)), ("label", String.ofList s.label), ("mn", String.ofList s.mnemonic),
+    ("opnd", String.ofList s.origText), ("comment", String.ofList s.comment)]
+
+open CoCo.Asm in
+def asmProg (j : Json) : List (String × Json) :=
+  let lines := (getArr j "lines").toList.map (fun x => ((x.getStr?).toOption.getD "").toList)
+  let files : Asm.Files := match j.getObjVal? "files" with
+    | .ok (.obj kvs) => kvs.toList.map (fun (k, v) => (k.toList, (match v with | .arr a => a.toList.map (fun x => ((x.getStr?).toOption.getD "").toList) | _ => [])))
+    | _ => []
+  outcomeJson (assemble files lines) (fun a =>
+    [("stmts", Json.arr (a.stmts.map stmtJson).toArray),
+     ("symtab", Json.arr (a.symtab.map (fun (k, v) => Json.arr #[Json.str (String.ofList k), optStr v.hex?])).toArray),
+     ("origin", optStr a.origin.hex?),
+     ("originInt", match a.origin.int? with | some n => Json.num (JsonNumber.fromNat n) | none => Json.null),
+     ("name", optStr a.name),
+     ("image", optHexBytes a.image)])
+
 def handle (j : Json) : List (String × Json) :=
   match getStr j "op" with
+  | "asm.prog" => asmProg j
+  | "asm.value" =>
+    match Asm.create 4 (getStr j "s").toList (getBool j "isStr") (getBool j "is16") (getBool j "defExt") with
+    | .ok v => [("k", "ok"), ("v", renderValue v)]
+    | .error .valueType => [("k", "ValueTypeError")]
+    | .error _ => [("k", "other")]
   | "dsk.write" =>
     let fs := (getArr j "files").toList.map cfileOfJson
     let base := match j.getObjVal? "img" with
